@@ -192,7 +192,7 @@ func runC11(rt interface {
 	reconnectsBefore := w.conn.Metrics().Reconnects()
 	evIdx := len(w.nw.Events()) // dial/listen attempts from here on belong to the recovery
 	logf("faulted generation up")
-	var endAt, wtStart time.Time
+	var endAt, wtStart, deselAt time.Time
 	switch c.fault {
 	case "cut-in": // the link dies after the peer has WRITTEN offset bytes (library inbound direction)
 		p.C.CutAfterWritten(c.offset, nil)
@@ -203,6 +203,17 @@ func runC11(rt interface {
 	case "peer-close":
 		c11Exchange(w, p, true)
 		_ = p.C.Close()
+	case "t7-after-deselect":
+		// the session is selected, the peer deselects and then goes silent: the NOT SELECTED dwell
+		// starts anew at the deselect, and its T7 expiry is a link failure like any other
+		if err := w.selectAsPeer(p, 0x5e1ec7); err != nil {
+			fail("select: %v", err)
+		}
+		if c.offset%2 == 0 {
+			time.Sleep(time.Duration(c.offset%100) * time.Millisecond) // the dwell armed at TCP-up is long gone, or not
+		}
+		_ = p.Send(e37.Control(e37.DeselectReq, 0xffff, 0, 0, 0xde5e1))
+		deselAt = time.Now()
 	case "t6", "t7": // nobody completes the select: active waits T6, passive dwells T7
 	case "t8":
 		if rapid0(c.offset)%2 == 0 {
@@ -266,6 +277,10 @@ func runC11(rt interface {
 	}
 	logf("faulted generation ended (%s)", c.fault)
 	switch c.fault {
+	case "t7-after-deselect":
+		if d := endAt.Sub(deselAt); d != c11T7 {
+			fail("after a Deselect.req and silence the link was ended %v after the deselect, T7 is %v", d, c11T7)
+		}
 	case "t6":
 		if d := endAt.Sub(peers[len(peers)-1].Frames()[0].At); c.active && d != c11T6 {
 			fail("the unanswered Select.req was given up after %v, T6 is %v", d, c11T6)
@@ -378,11 +393,11 @@ func runC11(rt interface {
 func rapid0(x int64) int64 { return x }
 
 func TestC11Recovery(t *testing.T) {
-	ev.Rule("(role, fault, refusals 0..8, backoff initial/multiplier/T5, faulted generation first or second): fault = reset after the peer wrote / read a drawn number of bytes of the connect-select-data-linktest exchange, peer close, unanswered select (T6), silent peer (T7), partial frame (T8), closed window (write timeout), dead linktest, Select.rsp status 2..255; then k refused dials / failed listens; optionally, after the recovery, the peer falls silent and the auto-linktest (interval 2 s) must drop the link and the connection recover once more; optionally T5 changed at runtime (UpdateConfigOptions) in the middle of the second backoff sleep: later sleeps are capped by the new value; active: 0-4 refused dials before the very first connection (cold start: same backoff schedule, Reconnects() stays 0); oracle: every gap between attempts equals the ref/fsm.Backoff sequence exactly (virtual time), positive, non-decreasing, <= T5; the link is re-established, re-selected, a reply-expected round trip and a linktest work; Reconnects() +1 per successful re-dial (active); nothing is dialled or listened after Close; non-trivial = the fault lands after the first byte of an exchange, or k >= 2")
+	ev.Rule("(role, fault, refusals 0..8, backoff initial/multiplier/T5, faulted generation first or second): fault = reset after the peer wrote / read a drawn number of bytes of the connect-select-data-linktest exchange, peer close, unanswered select (T6), silent peer (T7), Deselect.req followed by silence (T7 counted from the deselect), partial frame (T8), closed window (write timeout), dead linktest, Select.rsp status 2..255; then k refused dials / failed listens; optionally, after the recovery, the peer falls silent and the auto-linktest (interval 2 s) must drop the link and the connection recover once more; optionally T5 changed at runtime (UpdateConfigOptions) in the middle of the second backoff sleep: later sleeps are capped by the new value; active: 0-4 refused dials before the very first connection (cold start: same backoff schedule, Reconnects() stays 0); oracle: every gap between attempts equals the ref/fsm.Backoff sequence exactly (virtual time), positive, non-decreasing, <= T5; the link is re-established, re-selected, a reply-expected round trip and a linktest work; Reconnects() +1 per successful re-dial (active); nothing is dialled or listened after Close; non-trivial = the fault lands after the first byte of an exchange, or k >= 2")
 	vt.Bubble(t, func(t *testing.T) {
 		vt.CheckBubble(t, 4000, 200000, func(rt *rapid.T) {
 			c := c11Case{active: rapid.Bool().Draw(rt, "active")}
-			faults := []string{"cut-in", "cut-in", "cut-out", "cut-out", "peer-close", "t8", "write-timeout", "linktest"}
+			faults := []string{"cut-in", "cut-in", "cut-out", "cut-out", "peer-close", "t8", "write-timeout", "linktest", "t7-after-deselect"}
 			if c.active {
 				faults = append(faults, "t6", "select-rejected")
 			} else {
